@@ -209,6 +209,8 @@ class SymArray(np.ndarray):
     def conj(self):
         if self.dtype != object:
             return np.asarray(self).conj()
+        if not is_complex_content(np.asarray(self)):
+            return self          # ndarray.conj() of a non-complex array returns the array itself (no copy): aliasing matters
         return wrap(_v_conj(np.asarray(self)))
 
     conjugate = conj
@@ -230,8 +232,15 @@ class SymArray(np.ndarray):
         if self.dtype != object:
             return np.asarray(self).astype(dtype, *a, **k)
         dt = np.dtype(dtype)
+        nocopy = (k.get("copy", True) is False)
+        cplx_content = is_complex_content(np.asarray(self))
         if dt == object or dt.kind == 'f':
+            # astype(..., copy=False) hands back the array itself when nothing has to be converted (aliasing matters)
+            if nocopy and (dt == object or not cplx_content):
+                return self
             return self.copy()
+        if dt.kind == 'c' and nocopy and cplx_content:
+            return self
         if dt.kind == 'c':
             out = np.empty(self.shape, dtype=object)
             for i in np.ndindex(*self.shape):
